@@ -21,7 +21,9 @@ func (u *c03Updater) UpdateProperties(po tabular.PropertyOwner) error {
 	return nil
 }
 
-func runC03UpdateFromCallback(x *X) {
+func runC03UpdateFromCallback(x *X) { runUpdateFromCallback(x, "C03") }
+
+func runUpdateFromCallback(x *X, prop string) {
 	newTexts := []string{"much-wider-than-before", "n", "two\nlines-now", ""}
 	x.Explore("update-from-precell-callback", ExploreOpts{ShardDepth: 2, Bound: "3 pointer items changed to {wider, narrower, two-line, empty} without Update x an updating pre-cell CELL callback on {table, column 1, row 1} registered before or after the wrapper exists x 2 decorations x 1-2 renders"}, func(c *Chooser) {
 		owner := c.Choose(3)
@@ -89,10 +91,10 @@ func runC03UpdateFromCallback(x *X) {
 			var out string
 			var err error
 			if pn, val, site := Safe(func() { out, err = tt.Render() }); pn {
-				x.FailSite("C03.no_panic", []string{"update_from_callback", "panic"}, site, "render panicked: %v", val)
+				x.FailSite(prop+".no_panic", []string{"update_from_callback", "panic"}, site, "render panicked: %v", val)
 				return
 			}
-			judgeTextTable(x, "C03", tg, dc, []string{"update_from_precell_callback", "user_callback_updates_cells_during_the_pass"}, out, err)
+			judgeTextTable(x, prop, tg, dc, []string{"update_from_precell_callback", "user_callback_updates_cells_during_the_pass"}, out, err)
 		}
 		x.State(fmt.Sprint(owner, regFirst, dc.Name, tg.String()))
 		x.Nontrivial(fmt.Sprint(c.path))
